@@ -15,7 +15,8 @@ type HashValue struct {
 
 // Get hashes the sticky value.
 func (v *HashValue) Get(raw *url.URL) string {
-	return v.hash(raw.String())
+	// hash what FindURL compares against: scheme, host and path (userinfo and query do not identify a server)
+	return v.hash(normalized(raw))
 }
 
 // FindURL gets url from array that match the value.
